@@ -38,6 +38,7 @@ func runC09(c *core.Ctx) {
 		return
 	}
 	std := loadStd(c, cb)
+	runC09Clone(c, std)
 	nArch, nRefs := 0, 0
 	var archFuncs []string
 	for _, p := range std {
